@@ -336,7 +336,7 @@ def machine_shard(rec, shard):
 
 
 def main(ctx):
-    n = 800 if ctx.tier == 'quick' else 24000
+    n = 2400 if ctx.tier == 'quick' else 24000
     w = 8 if ctx.tier == 'quick' else 16
     ctx.pmap('machine_shard', [(k, n // w, 25 if ctx.tier == 'quick' else 40) for k in range(w)])
     # the documented two-message example and its variants, for every observation pair
